@@ -228,10 +228,20 @@ def harness_build(variant="plain", extra_units=None):
             jobs.append((s, o))
     link_key = _sha(*objs, variant)
     exe = os.path.join(BUILD, "bin", "drive-%s-%s" % (variant, link_key))
+    pairs = list(zip(srcs + hsrcs, objs))
+
+    def touch(paths):
+        for f in paths:
+            try:
+                os.utime(f, None)           # cache entries in use are the newest: the collector below removes the oldest
+            except OSError:
+                pass
     if os.path.exists(exe) and not jobs:
+        touch([exe])
         return exe
     with FileLock(os.path.join(BUILD, "harness.lock")):
-        jobs = [(s, o) for (s, o) in jobs if not os.path.exists(o)]
+        # decide again under the lock: another run (other tree / variant) may have collected objects in between
+        jobs = [(s, o) for (s, o) in pairs if not os.path.exists(o)]
 
         def cc(job):
             s, o = job
@@ -244,14 +254,16 @@ def harness_build(variant="plain", extra_units=None):
             for rc, out, s in ex.map(cc, jobs):
                 if rc != 0:
                     raise RuntimeError("harness compile failed for %s:\n%s" % (s, out[-4000:]))
+        touch(objs)
         os.makedirs(os.path.dirname(exe), exist_ok=True)
         if not os.path.exists(exe):
-            rc, out = sh(["g++"] + flags + objs + ["-o", exe + ".tmp"], timeout=1800)
+            rc, out = sh(["g++"] + flags + objs + ["-o", exe + ".tmp%d" % os.getpid()], timeout=1800)
             if rc != 0:
                 raise RuntimeError("harness link failed:\n" + out[-4000:])
-            os.replace(exe + ".tmp", exe)
-        _gc(objdir, 400)
-        _gc(os.path.dirname(exe), 12)
+            os.replace(exe + ".tmp%d" % os.getpid(), exe)
+        touch([exe])
+        _gc(objdir, 1500)
+        _gc(os.path.dirname(exe), 30)
     return exe
 
 
